@@ -224,4 +224,49 @@ pub assume_specification<T, E, U, F>[ std::result::Result::<T, E>::and_then ](r:
         r is Err ==> out is Err && out->Err_0 == r->Err_0,
 ;
 
+// ---- "allowed panic" shims ----------------------------------------------------------------------------------
+// ASSUMPTION (all four): the PANIC PATH of a function that C14/C19 allow to panic (no `Result` in its signature:
+// Clone::clone, Default::default, ResizableBytes::resize, NewBytes::new_bytes on locked types) is NOT verified —
+// `Clone::clone` etc. cannot carry a precondition.  What IS verified is everything on the path that RETURNS:
+// if `expect`/`unwrap` returns, the value was Ok/Some and is the one returned; `panic!` does not return.
+
+/// R2 shim for `<Result>.expect(msg)`
+#[verifier::external_body]
+pub fn shim_expect_granted<T, E: std::fmt::Debug>(r: Result<T, E>, msg: &str) -> (v: T)
+    ensures
+        r is Ok,
+        v == r->Ok_0,
+{
+    r.expect(msg)
+}
+
+/// R2 shim for `<Option>.unwrap()`
+#[verifier::external_body]
+pub fn shim_unwrap_some<T>(o: Option<T>) -> (v: T)
+    ensures
+        o is Some,
+        v == o->Some_0,
+{
+    o.unwrap()
+}
+
+/// R2 shim for `panic!(msg, ..)`
+#[verifier::external_body]
+pub fn shim_allowed_panic<T>(msg: &str) -> (v: T)
+    ensures
+        false,
+{
+    panic!("{}", msg)
+}
+
+/// R2 shim for `x.clone()` on a byte container.  ASSUMPTION: `Clone` of a `Bytes` container copies the bytes
+/// (HeapBytes / HeapByteArray derive Clone over a Vec).
+#[verifier::external_body]
+pub fn shim_clone_bytes<A: std::clone::Clone + crate::types::Bytes>(a: &A) -> (r: A)
+    ensures
+        r.bview() == a.bview(),
+{
+    a.clone()
+}
+
 } // verus!
